@@ -225,6 +225,8 @@ def gen_cases(tier, seed):
                            "parts": nparts}
     yield {"kind": "joint"}
     yield {"kind": "freerun"}
+    yield {"kind": "leap"}
+    yield {"kind": "names"}
 
 
 def data_ok(spec, got, want):
@@ -687,11 +689,91 @@ def freerun_case(case, res, specs):
     res.sample({"freerun": "4 real threads x 4 reads x 50 repetitions, 3 readers (reported as a smoke pass, not coverage)"}, 1)
 
 
+class _SynthReader(pb.readers.BaseReader):
+    """A minimal reader on the public base class: sample k has the value k."""
+
+    def __init__(self, n, rate, start):
+        super().__init__(shape=(n,), dtype=np.float32, sample_rate=rate, start_time=start)
+
+    def _read_array(self, offset, n):
+        return np.arange(offset, offset + n, dtype=np.float32)
+
+
+def leap_case(case, res):
+    """A stream that runs through the leap second at the end of 2016: positions are counted in elapsed time."""
+    for rate, t0, n in ((1 * u.kHz, "2016-12-31T23:59:30", 90000), (1 * u.MHz, "2016-12-31T23:59:59.5", 3000000),
+                        (2 * u.Hz, "2016-12-31T12:00:00", 100000)):
+        r = _SynthReader(n, rate, Time(t0, format="isot", scale="utc", precision=9))
+        srv = rate.to_value(u.Hz)
+        for k in sorted({0, 1, n // 3, int(29.999 * srv), int(30 * srv), int(30.5 * srv) + 1, int(31.001 * srv), n // 2, n - 1, n} & set(range(n + 1))
+                        | {0, n // 3, n // 2, n - 1, n}):
+            res.transitions += 3
+            res.traces += 1
+            res.state(("leap", str(rate), k))
+            try:
+                tk = r.time_at(k)
+                back = (r.offset_at(tk), r.offset_at(tk.tai), r.offset_at(r.time_at(k, unit=u.s)))
+            except Exception as e:
+                res.violation("leap|raised", f"k={k} at {rate}: {type(e).__name__}: {e}", case, {"k": k})
+                continue
+            if back != (k, k, k):
+                res.violation("leap|offset_at(time_at(k)) != k", f"k={k} at {rate} from {t0}: {back}", case, {"k": k, "rate": str(rate)})
+                continue
+            el = (tk - r.start_time).to_value(u.s)
+            if abs(el - k / srv) > 1e-9 + 2e-11 * 86400:
+                res.violation("leap|time_at", f"time_at({k}) is {el!r} s after the start, expected {k / srv!r}", case, {"k": k})
+                continue
+            if k < n:
+                z = r.read(k, min(4, n - k))
+                if abs((z.start_time - tk).to_value(u.s)) > 1e-12 or float(np.asarray(z.data)[0]) != float(np.float32(k)):
+                    res.violation("leap|read", f"read({k}, ..) starts {(z.start_time - tk).to_value(u.s)!r} s from time_at({k}) / wrong "
+                                  f"sample", case, {"k": k})
+                    continue
+            res.hits["stream running through a leap second"] += 1
+
+
+def names_case(case, res, tmp):
+    """The multi-file sequence under names whose alphabetical order is not their time order (scan.8 .. scan.11): the reader
+    must use the files in the order given."""
+    d = os.path.join(tmp, "names")
+    os.makedirs(d, exist_ok=True)
+    src = [DATA + "fake.%d.raw" % i for i in range(4)]
+    dst = [os.path.join(d, "scan.%d.raw" % i) for i in (8, 9, 10, 11)]
+    for a, b_ in zip(src, dst):
+        shutil.copyfile(a, b_)
+    ref = pb.readers.GUPPIRawReader(src)
+    for form, arg in (("list", list(dst)), ("tuple", tuple(dst))):
+        res.transitions += 1
+        try:
+            r = pb.readers.GUPPIRawReader(arg)
+            bad = None
+            if len(r) != len(ref) or abs(T(r.start_time) - T(ref.start_time)) > 0:
+                bad = f"len {len(r)} / start {r.start_time.isot}, expected {len(ref)} / {ref.start_time.isot}"
+            else:
+                for o, n in ((0, 8), (8190, 6), (16380, 10), (24570, 12), (len(ref) - 5, 5)):
+                    a, b_ = r.read(o, n), ref.read(o, n)
+                    res.transitions += 2
+                    if not np.array_equal(np.asarray(a.data), np.asarray(b_.data)) or abs(T(a.start_time) - T(b_.start_time)) > 0:
+                        bad = f"read({o}, {n}) differs from the same files under their original names"
+                        break
+            if bad:
+                res.violation("names|files not used in the order given", f"{form} of scan.8, scan.9, scan.10, scan.11: {bad}", case,
+                              {"form": form})
+            else:
+                res.hits["file names whose sorted order is not their time order"] += 1
+        except Exception as e:
+            res.violation("names|raised", f"{form}: {type(e).__name__}: {e}", case, {"form": form})
+
+
 def check_case(case):
     res = report.Result()
     tmp = tempfile.mkdtemp(prefix="pbmc_c11_")
     try:
-        if case["kind"] in ("joint", "freerun"):
+        if case["kind"] == "leap":
+            leap_case(case, res)
+        elif case["kind"] == "names":
+            names_case(case, res, tmp)
+        elif case["kind"] in ("joint", "freerun"):
             specs = build_specs(tmp)
             {"joint": joint_case, "freerun": freerun_case}[case["kind"]](case, res, specs)
         else:
@@ -707,7 +789,8 @@ def main(argv=None):
     return report.run_check(
         PID, gen_cases=gen_cases, check_case=check_case, describe=describe,
         required_hits=["out-of-range time rejected", "out-of-range read rejected", "adjacent reads join", "known payload verified",
-                       "same read repeated in a history", "numpy integer offsets", "time given on another scale", "dask read split into several time chunks", "mask argument modified by the caller afterwards", "schedules explored", "schedules with a preemption",
+                       "same read repeated in a history", "numpy integer offsets", "time given on another scale", "dask read split into several time chunks", "mask argument modified by the caller afterwards", "stream running through a leap second",
+                       "file names whose sorted order is not their time order", "schedules explored", "schedules with a preemption",
                        "two readers in one graph", "free-running pass"],
         assumptions=["thread interleavings are explored at Python-line granularity inside pulsarbat/readers/*.py and utils.py; code in "
                      "baseband/numpy runs atomically between two such lines; real parallelism inside C code is not modelled",
